@@ -77,10 +77,18 @@ func runWLReps(em *Emitter, id int, sc Scenario, seed int64) {
 	bufs := map[int][]string{} // the caller reuses ONE buffer per length for its successive lists
 	for rep := 0; rep < sc.Reps; rep++ {
 		in0 := append([]string{}, base...)
-		for k := rng.Intn(3); k > 0 && len(base) > 0; k-- { // repetitions
-			in0 = append(in0, base[rng.Intn(len(base))])
+		switch rep {
+		case 0: // the input exactly as given (a sorted list stays sorted, a multiplicity stays what it is)
+		case 1: // ... and reversed
+			for i, j := 0, len(in0)-1; i < j; i, j = i+1, j-1 {
+				in0[i], in0[j] = in0[j], in0[i]
+			}
+		default:
+			for k := rng.Intn(3); k > 0 && len(base) > 0; k-- { // repetitions
+				in0 = append(in0, base[rng.Intn(len(base))])
+			}
+			rng.Shuffle(len(in0), func(i, j int) { in0[i], in0[j] = in0[j], in0[i] })
 		}
-		rng.Shuffle(len(in0), func(i, j int) { in0[i], in0[j] = in0[j], in0[i] })
 		novel := rep%50 == 49 && len(in0) > 0 && len(in0) < 100
 		if novel { // now and then other content in the same buffer
 			in0[0] = fmt.Sprintf("zq%dx", rep)
@@ -258,6 +266,18 @@ func wlCellEvents(id int, sc Scenario, seed int64, pre *spg.WLRecipe, preWL *spg
 		}
 		cell.Uncap = uncap
 		cell.Size = int(wl.Size())
+	}
+	if sc.Prefault > 0 && wl != nil && pre == nil {
+		// an earlier call in this process, on a capitalising recipe over the same list, whose source failed half-way
+		fe := NewEnum(seed + 77)
+		fe.FailAtRead = sc.Prefault
+		fe.Policy = func(j int, n uint32) uint32 { return uint32(fe.Rng.Int63n(int64(n))) }
+		fr := *rp
+		fr.Capitalize = []spg.CapScheme{spg.CSAll, spg.CSRandom, spg.CSOne}[sc.Prefault%3]
+		if fr.Length < 4 {
+			fr.Length = 4
+		}
+		fe.Run(nil, func() { fr.Generate() })
 	}
 	before := wlPublic(*rp)
 	e := NewEnum(seed)
